@@ -108,13 +108,16 @@ impl<const N: usize, T: Debug> DrainDyn<T> for Drain<'_, N, T> {
     }
     fn fold_collect(self: Box<Self>) -> Vec<T> {
         (*self).fold(Vec::new(), |mut v, x| {
+            // the closure is user code: it counts as a fault point
             v.push(x);
+            crate::tracked::user_event(crate::tracked::FaultKind::Make);
             v
         })
     }
     fn rfold_collect(self: Box<Self>) -> Vec<T> {
         (*self).rfold(Vec::new(), |mut v, x| {
             v.push(x);
+            crate::tracked::user_event(crate::tracked::FaultKind::Make);
             v
         })
     }
@@ -122,10 +125,18 @@ impl<const N: usize, T: Debug> DrainDyn<T> for Drain<'_, N, T> {
         (*self).rev().last()
     }
     fn position_dyn(&mut self, f: &mut dyn FnMut(&T) -> bool) -> Option<usize> {
-        Iterator::position(self, |x| f(&x))
+        Iterator::position(self, |x| {
+            let r = f(&x);
+            crate::tracked::user_event(crate::tracked::FaultKind::Make);
+            r
+        })
     }
     fn rposition_dyn(&mut self, f: &mut dyn FnMut(&T) -> bool) -> Option<usize> {
-        Iterator::rposition(self, |x| f(&x))
+        Iterator::rposition(self, |x| {
+            let r = f(&x);
+            crate::tracked::user_event(crate::tracked::FaultKind::Make);
+            r
+        })
     }
     fn next(&mut self) -> Option<T> {
         Iterator::next(self)
@@ -201,13 +212,16 @@ impl<const N: usize, T: Debug + Clone + 'static> IntoIterDyn<T> for IntoIter<N, 
     fn fold_collect(self: Box<Self>) -> Vec<T> {
         // directly on the iterator, so that a `fold` override is what runs
         (*self).fold(Vec::new(), |mut v, x| {
+            // the closure is user code: it counts as a fault point
             v.push(x);
+            crate::tracked::user_event(crate::tracked::FaultKind::Make);
             v
         })
     }
     fn rfold_collect(self: Box<Self>) -> Vec<T> {
         (*self).rfold(Vec::new(), |mut v, x| {
             v.push(x);
+            crate::tracked::user_event(crate::tracked::FaultKind::Make);
             v
         })
     }
@@ -227,10 +241,18 @@ impl<const N: usize, T: Debug + Clone + 'static> IntoIterDyn<T> for IntoIter<N, 
         (*self).step_by(k + 1).take(N + 2).collect()
     }
     fn position_dyn(&mut self, f: &mut dyn FnMut(&T) -> bool) -> Option<usize> {
-        Iterator::position(self, |x| f(&x))
+        Iterator::position(self, |x| {
+            let r = f(&x);
+            crate::tracked::user_event(crate::tracked::FaultKind::Make);
+            r
+        })
     }
     fn rposition_dyn(&mut self, f: &mut dyn FnMut(&T) -> bool) -> Option<usize> {
-        Iterator::rposition(self, |x| f(&x))
+        Iterator::rposition(self, |x| {
+            let r = f(&x);
+            crate::tracked::user_event(crate::tracked::FaultKind::Make);
+            r
+        })
     }
 }
 
@@ -285,6 +307,8 @@ pub trait Deq<T>: Any {
     fn fill_spare(&mut self, v: T);
     fn fill_spare_with(&mut self, f: &mut dyn FnMut() -> T);
     fn extend_dyn(&mut self, it: &mut dyn Iterator<Item = T>);
+    /// through std's `impl Extend<(A, B)> for (ExtendA, ExtendB)`
+    fn extend_pairs_dyn(&mut self, it: &mut dyn Iterator<Item = T>);
     fn extend_from_slice(&mut self, s: &[T]);
     fn to_vec(&self) -> Vec<T>;
     fn clone_box(&self) -> Box<dyn Deq<T>>;
@@ -452,6 +476,21 @@ where
     fn extend_dyn(&mut self, it: &mut dyn Iterator<Item = T>) {
         Extend::extend(self, it)
     }
+    fn extend_pairs_dyn(&mut self, it: &mut dyn Iterator<Item = T>) {
+        // the tuple impl wants to own both collections: a guard moves the buffer back even when the iterator panics
+        struct Back<'a, const N: usize, T>(&'a mut CircularBuffer<N, T>, Option<(CircularBuffer<N, T>, Vec<()>)>);
+        impl<const N: usize, T> Drop for Back<'_, N, T> {
+            fn drop(&mut self) {
+                if let Some((b, _)) = self.1.take() {
+                    let empty = core::mem::replace(self.0, b);
+                    core::mem::forget(empty);
+                }
+            }
+        }
+        let taken = core::mem::take(self);
+        let mut g = Back(self, Some((taken, Vec::new())));
+        g.1.as_mut().unwrap().extend(it.map(|t| (t, ())));
+    }
     fn extend_from_slice(&mut self, s: &[T]) {
         CircularBuffer::extend_from_slice(self, s)
     }
@@ -556,6 +595,10 @@ macro_rules! dispatch_cap {
             13 => { const $N: usize = 13; $body }
             16 => { const $N: usize = 16; $body }
             17 => { const $N: usize = 17; $body }
+            19 => { const $N: usize = 19; $body }
+            23 => { const $N: usize = 23; $body }
+            24 => { const $N: usize = 24; $body }
+            29 => { const $N: usize = 29; $body }
             31 => { const $N: usize = 31; $body }
             32 => { const $N: usize = 32; $body }
             33 => { const $N: usize = 33; $body }
@@ -622,9 +665,25 @@ where
         7 => mk::<7, T>(items),
         8 => mk::<8, T>(items),
         9 => mk::<9, T>(items),
-        _ => panic!("from_array: capacity {n} not in table"),
+        _ => {
+            // a few larger (N, M) pairs: M below, at and above N around the sizes 32 / 64 / 128 / 256
+            macro_rules! big {
+                ($(($bn:literal, $bm:literal))*) => {
+                    match (n, items.len()) {
+                        $(($bn, $bm) => {
+                            let arr: [T; $bm] = match items.try_into() { Ok(a) => a, Err(_) => unreachable!() };
+                            Box::new(CircularBuffer::<$bn, T>::from(arr))
+                        })*
+                        (n, m) => panic!("from_array: pair ({n}, {m}) not in table"),
+                    }
+                };
+            }
+            big!((33, 32) (33, 33) (33, 100) (64, 63) (64, 64) (64, 65) (65, 64) (65, 130) (128, 128) (128, 130) (256, 255) (256, 256) (256, 300))
+        }
     }
 }
+pub const FROM_ARRAY_BIG_PAIRS: [(usize, usize); 13] =
+    [(33, 32), (33, 33), (33, 100), (64, 63), (64, 64), (64, 65), (65, 64), (65, 130), (128, 128), (128, 130), (256, 255), (256, 256), (256, 300)];
 pub const FROM_ARRAY_MAX_N: usize = 9;
 pub const FROM_ARRAY_MAX_M: usize = 19;
 
@@ -638,6 +697,21 @@ where
         T: Clone + PartialEq + Ord + Hash + Debug + 'static,
     {
         Box::new(it.collect::<CircularBuffer<N, T>>())
+    }
+    dispatch_cap!(n, N => mk::<N, T>(it), panic!("capacity {n} not in table"))
+}
+
+/// `Iterator::unzip` into (CircularBuffer, Vec<()>) for table capacities.
+pub fn unzip_dyn<T>(n: usize, it: &mut dyn Iterator<Item = T>) -> Box<dyn Deq<T>>
+where
+    T: Clone + PartialEq + Ord + Hash + Debug + 'static,
+{
+    fn mk<const N: usize, T>(it: &mut dyn Iterator<Item = T>) -> Box<dyn Deq<T>>
+    where
+        T: Clone + PartialEq + Ord + Hash + Debug + 'static,
+    {
+        let (b, _units): (CircularBuffer<N, T>, Vec<()>) = it.map(|t| (t, ())).unzip();
+        Box::new(b)
     }
     dispatch_cap!(n, N => mk::<N, T>(it), panic!("capacity {n} not in table"))
 }
